@@ -11,7 +11,7 @@ TITLE = "Deterministic solvers return the ODE solution at each requested time"
 RULE = ("Hypothesis draws either a generated benign ODE model (chains, epidemic mass action, saturating interactions, periodic forcing; 1-4 states) "
         "or a catalogue model with a parameter / initial-state box (SIS, SIS_Periodic, SIR, SEIR, SIR_Birth_Death, SEIR_Birth_Death, "
         "SEIR_Birth_Death_Periodic, Lotka_Volterra, FitzHugh, SIR_norm, vanDerPol with small mu, Lorenz and Robertson on short horizons), a grid of "
-        "1-12 strictly increasing times after t0 (uniform or non-uniform with gaps from 1e-3 to 2; list, tuple, array or a single number) and an entry "
+        "1-12 strictly increasing times after t0 (uniform or non-uniform with gaps from 1e-3 to 2; list, tuple, array or a single number; in 3 of 8 cases instead a decreasing grid before t0 (backward integration), a grid whose first entry is t0 itself, or a grid with one time asked twice) and an entry "
         "point in {integrate, integrate(full_output=True), solve_determ, integrate2(method, full_output), ode_utils.integrateFuncJac(method, "
         "full_output, includeOrigin)} with method in {None, lsoda, vode, ivode, dopri5, dop853}; grids also as integer typed arrays / lists / tuples with a fractional t0, x0 as list / tuple / array / Python ints / integer typed array; in half of the cases a SECOND solve follows on the same model object with another entry point, method, grid and initial condition. Oracle: number of rows = len(grid) (+1 where the "
         "origin is included, and then row 0 == x0 exactly); row k vs an independent reference solution at t_k (two scipy solve_ivp references at "
@@ -86,6 +86,9 @@ def strategy(tier):
         c["full_output"] = draw(st.booleans())
         c["include_origin"] = draw(st.booleans())
         c["grid_type"] = draw(st.sampled_from(["list", "tuple", "array", "number", "int_array", "int_list", "int_tuple"]))
+        chain = src == "generated" and c["model"].get("family") == "chain"
+        c["grid_kind"] = draw(st.sampled_from((["forward"] * 3 + ["backward"] * 3 if chain else ["forward"] * 6) + ["from-t0", "repeat"]))
+        c["repeat_at"] = draw(st.integers(0, 11))
         if c["grid_type"].startswith("int"):
             # whole-number output times (np.arange / day numbers) with a possibly fractional initial time
             tmax = 6.0 if src == "generated" else CATALOGUE[c["name"]][2]
@@ -105,6 +108,8 @@ def strategy(tier):
                            "method": draw(st.sampled_from(METHODS)), "full_output": draw(st.booleans()),
                            "include_origin": draw(st.booleans()), "grid_type": draw(st.sampled_from(["list", "tuple", "array", "number"])),
                            "x0_type": draw(st.sampled_from(["list", "array", "tuple"])),
+                           "grid_kind": draw(st.sampled_from(["forward"] * 5 + ["backward", "from-t0", "repeat"])),
+                           "repeat_at": draw(st.integers(0, 11)),
                            "setup": {"x0": [S.sig(v * draw(st.sampled_from([1.0, 0.8, 1.2])) + (0.0 if v else 0.01), 5) for v in su["x0"]],
                                      "t0": su["t0"] + draw(st.sampled_from([0.0, 0.0, 0.5, 1.0])), "grid_rel": rel2}}
         return c
@@ -139,14 +144,35 @@ def _run(case, rec, part, model, f, tag=""):
         times = times[-1:]
     if len(times) == 0 or not (np.diff(np.concatenate([[t0], times])) > 0).all():
         raise Inconclusive("degenerate grid")
+    # other legitimate shapes of a request: times BEFORE t0 in decreasing order (backward integration), a grid whose first
+    # entry is t0 itself (the whole linspace instead of t[1:]), a time asked for twice
+    kind = part.get("grid_kind", "forward")
+    if part["grid_type"] == "number" or part["grid_type"].startswith("int"):
+        kind = "forward"
+    if kind in ("from-t0", "repeat") and part["entry"] not in ("integrate", "integrate-full", "solve_determ"):
+        # a zero-length step: several scipy.integrate.ode integrators report failure there and PyGOM turns that into a clean
+        # IntegrationError - a rejected request, not a wrong answer; only the odeint path accepts such grids
+        kind = "forward"
+    uniq = times
+    if kind == "backward" and not (case["source"] == "generated" and case["model"].get("family") == "chain"):
+        # run backwards, non-linear models blow up in finite time; linear chains merely grow
+        kind = "forward"
+    if kind == "backward":
+        times = uniq = np.array([t0 - 0.3 * v for v in su["grid_rel"]][:len(times)])
+    elif kind == "from-t0":
+        times = np.concatenate([[t0], uniq])
+    elif kind == "repeat":
+        j = part.get("repeat_at", 0) % len(uniq)
+        times = np.concatenate([uniq[:j + 1], uniq[j:]])
     n_s = len(x0)
     entry, method = part["entry"], part["method"]
     key = "C02/%s%s" % (tag, entry)
     odeint_path = entry in ("integrate", "integrate-full", "solve_determ")
     tol = 1e-5 if odeint_path else 1e-6
-    ref, amp = refsolve.reference_solution(f, x0, t0, times, tol)
+    ref_u, amp = refsolve.reference_solution(f, x0, t0, uniq, tol)
     if amp > 20:
         raise Inconclusive("ill-conditioned")
+    ref = np.array([np.asarray(x0, float) if t == t0 else ref_u[int(np.argmin(np.abs(uniq - t)))] for t in times])
     gt = part["grid_type"]
     if gt.startswith("int") and not np.all(times == np.rint(times)):
         raise Inconclusive("integer grid form on non-integer times")
@@ -158,7 +184,7 @@ def _run(case, rec, part, model, f, tag=""):
               "int_array": np.array([int(v) for v in x0])}[xt] if xt in ("list", "array", "tuple") or all(v == int(v) for v in x0) else list(x0)
     model.initial_values = (x0_arg, t0)
     label_m = "odeint" if odeint_path else str(method)
-    rec.label("entry:" + entry, "method:" + label_m, "grid:" + part["grid_type"], "source:" + case["source"], "x0:" + xt,
+    rec.label("entry:" + entry, "method:" + label_m, "grid:" + part["grid_type"], "grid-kind:" + kind, "source:" + case["source"], "x0:" + xt,
               "model:" + (case.get("name") or case["model"]["family"]))
     info = None
     origin = True
